@@ -49,6 +49,11 @@ C11_OBLIGATIONS = _inits("C11_FrequencyCount", "C11_FrequencyRange", "C11_ShiftS
 C11_CLAIM = ("Apalache: for an axis of ANY length n the frequencies -(n div 2) .. (n-1) div 2 occur once each, the shift sorts them (cell p of "
              "the k-mesh holds frequency p - n div 2, the zero frequency cell n div 2), and the inverse shift undoes the shift for odd and "
              "even n (spec/C11Core.tla; %d of %d obligations, reported, not relied on)")
+# spec/C17Core.tla: cell centres as coordinates and the importer's reconstruction of the geometry
+C17_OBLIGATIONS = _inits("C17_CoordinatesEvenlySpaced", "C17_ImportRecoversCell", "C17_MeanSpacingIsCell", "C17_ImportRecoversRegion", "C17_CoordinatesAreCentres")
+C17_CLAIM = ("Apalache: the exported coordinates lo + (i + 1/2) c are evenly spaced and the importer's reconstruction (cell = mean spacing, "
+             "corners = outer coordinates -+ half a cell) returns the exported region and cell for unbounded lo, c and n >= 2 "
+             "(spec/C17Core.tla; %d of %d obligations, reported, not relied on)")
 C14_CLAIM = ("Apalache: a subregion inside the mesh region, on cell faces and a whole positive number of cells long stays so under translation, "
              "scaling by any non-zero integer factor about any point and the half turn (spec/C14Core.tla, inductive invariant for "
              "unbounded coordinates; %d of %d obligations, reported, not relied on)")
